@@ -5,6 +5,7 @@ leaves the reader exactly behind the picture.
 -/
 import H263V.Lemmas.PictureRoundTrip
 import H263V.Lemmas.SorensonRoundTrip
+import H263V.Lemmas.PlaneInv
 namespace H263V.Lemmas.SorensonPicture
 open H263V H263V.State H263V.Mb H263V.Spec.Vlc H263V.Spec.Syntax H263V.Spec.HeaderSpec
 open H263V.Lemmas.BitsLemmas H263V.Lemmas.ParseLemmas H263V.Lemmas.RoundTrip H263V.Lemmas.PictureRoundTrip
@@ -230,5 +231,109 @@ theorem calls_eq_alone (o : DecOpts) (ho : o.sorenson = true) :
       simp only [Out.bind_ok]
       obtain ⟨ko, kr⟩ := commit_keeps s r.1 r.2
       exact ih (commitPic s r.1 r.2) _ tail (by rw [ko, hso]) (by rw [kr, hr]) (fun x hx => hv x (by simp [hx]))
+
+
+/-! ### what the committed picture reports -/
+
+theorem gather_hdr (types : Array MbType) (ref : Option Gather.DecPic) (mvs : Array Mv.Mv4) (w : Nat) (pic r : Gather.DecPic)
+    (h : Gather.gather types ref mvs w pic = .ok r) : r.hdr = pic.hdr ∧ r.fmt = pic.fmt := by
+  unfold Gather.gather at h
+  refine Lemmas.PlaneInv.foldlM_inv (fun p => p.hdr = pic.hdr ∧ p.fmt = pic.fmt) _ _ ?_ pic r ⟨rfl, rfl⟩ h
+  intro p i p' hp hs
+  simp only at hs
+  split at hs
+  · split at hs
+    · simp at hs
+    · split at hs
+      · simp at hs
+      · split at hs
+        · simp at hs
+        · split at hs
+          · simp at hs
+          · simp only [bind, Out.bind] at hs
+            repeat' split at hs
+            all_goals (try (simp at hs; done))
+            all_goals
+              simp only [pure, Out.ok.injEq] at hs
+              rw [← hs]; exact hp
+  · simp only [Out.ok.injEq] at hs; rw [← hs]; exact hp
+
+theorem reconstruct_hdr (types : Array MbType) (ref : Option Gather.DecPic) (mvs : Array Mv.Mv4) (mpl w : Nat) (pic r : Gather.DecPic)
+    (a b c : Array Rle.Dct) (h : reconstruct types ref mvs mpl w pic a b c = .ok r) : r.hdr = pic.hdr ∧ r.fmt = pic.fmt := by
+  unfold reconstruct at h
+  cases hg : Gather.gather types ref mvs mpl pic with
+  | ok p1 =>
+    rw [hg] at h
+    simp only [Out.bind_ok] at h
+    obtain ⟨g1, g2⟩ := gather_hdr _ _ _ _ _ _ hg
+    simp only [bind, Out.bind] at h
+    repeat' split at h
+    all_goals (try (simp at h; done))
+    all_goals
+      simp only [pure, Out.ok.injEq] at h
+      rw [← h]; exact ⟨g1, g2⟩
+  | err e => rw [hg] at h; simp at h
+  | panic m => rw [hg] at h; simp at h
+  | fuel => rw [hg] at h; simp at h
+
+/-- the picture produced by the bit-free semantics carries the header it was given and the format that header signals -/
+theorem semCore_hdr (s : State) (hdr : PicHdr) (mbs : List MbD) (r : PicHdr × Gather.DecPic)
+    (h : semCore s hdr mbs = .ok r) : r.1 = hdr ∧ r.2.hdr = hdr ∧ (∀ f, hdr.format = some f → r.2.fmt = f) := by
+  unfold semCore at h
+  cases hfm : fmtOf s hdr with
+  | ok fmt =>
+    rw [hfm] at h
+    simp only [Out.bind_ok] at h
+    cases hd : fmt.dims with
+    | none => rw [hd] at h; simp at h
+    | some wh =>
+      rw [hd] at h
+      simp only at h
+      split at h
+      · simp at h
+      · cases hnew : Gather.DecPic.new hdr fmt with
+        | none => rw [hnew] at h; simp at h
+        | some pic0 =>
+          rw [hnew] at h
+          simp only at h
+          have hn : pic0.hdr = hdr ∧ pic0.fmt = fmt := by
+            unfold Gather.DecPic.new at hnew
+            rw [hd] at hnew
+            simp only [Option.some.injEq] at hnew; rw [← hnew]; exact ⟨rfl, rfl⟩
+          cases hsem : semMbs hdr (some (wh.1, wh.2)) (nextRunning hdr s.running) ((wh.1 + 15) / 16) mbs
+              { cur := ⟨[], 0⟩, quant := hdr.quantizer, mvs := #[], types := #[],
+                lumaLv := Array.replicate ((wh.1 + 15) / 16 * 16 * ((wh.2 + 15) / 16 * 16) / 64) .zero,
+                cbLv := Array.replicate ((wh.1 + 15) / 16 * 16 * ((wh.2 + 15) / 16 * 16) / 4 / 64) .zero,
+                crLv := Array.replicate ((wh.1 + 15) / 16 * 16 * ((wh.2 + 15) / 16 * 16) / 4 / 64) .zero } with
+          | ok l =>
+            rw [hsem] at h
+            simp only [Out.bind_ok] at h
+            cases hrec : reconstruct
+                (if l.types.size < (wh.1 + 15) / 16 * ((wh.2 + 15) / 16) then l.types ++ Array.replicate ((wh.1 + 15) / 16 * ((wh.2 + 15) / 16) - l.types.size) MbType.inter else l.types)
+                s.getRef
+                (if l.mvs.size < (wh.1 + 15) / 16 * ((wh.2 + 15) / 16) then l.mvs ++ Array.replicate ((wh.1 + 15) / 16 * ((wh.2 + 15) / 16) - l.mvs.size) Mv.zeroMv4 else l.mvs)
+                ((wh.1 + 15) / 16) wh.1 pic0 l.lumaLv l.cbLv l.crLv with
+            | ok pic =>
+              rw [hrec] at h
+              simp only [Out.bind_ok, Out.pure_eq, Out.ok.injEq] at h
+              obtain ⟨r1, r2⟩ := reconstruct_hdr _ _ _ _ _ _ _ _ _ _ hrec
+              rw [← h]
+              refine ⟨rfl, by simp only; rw [r1, hn.1], ?_⟩
+              intro f hf
+              simp only
+              rw [r2, hn.2]
+              unfold fmtOf at hfm
+              rw [hf] at hfm
+              simp only [Out.ok.injEq] at hfm
+              exact hfm.symm
+            | err e => rw [hrec] at h; simp at h
+            | panic m => rw [hrec] at h; simp at h
+            | fuel => rw [hrec] at h; simp at h
+          | err e => rw [hsem] at h; simp at h
+          | panic m => rw [hsem] at h; simp at h
+          | fuel => rw [hsem] at h; simp at h
+  | err e => rw [hfm] at h; simp at h
+  | panic m => rw [hfm] at h; simp at h
+  | fuel => rw [hfm] at h; simp at h
 
 end H263V.Lemmas.SorensonPicture
